@@ -75,9 +75,12 @@ def check(scn, hist):
             continue
         m = op['m']
         b, a = rec['before'], rec['after']
-        if b['port'] is None or b['err'] is not None:
+        if m == 'connect' and b['port'] is None and b['err'] is None and a['port'] is not None:
+            port = a['port']
+        elif b['port'] is None or b['err'] is not None:
             continue
-        port = b['port']
+        else:
+            port = b['port']
         before = dev_for(hist, i - 1, port) if i > 0 else initial_state(scn, port)
         after = dev_for(hist, i, port)
         if before is None or after is None:
@@ -156,6 +159,13 @@ def check(scn, hist):
                 elif a['name'] != want or rec['ret'] is not True:
                     out.append(V(PROP, 'nickname_roundtrip', m, oid, 'object name %r, returned %r after writing %r'
                                  % (a['name'], rec['ret'], s)))
+        elif m == 'connect':
+            if (not faulty and rec['ret'] is True and a['err'] is None and b['port'] is None and
+                    not any(q.get('plan') for q in rec['requests'])):
+                want = after['nick'].strip()
+                if want and a['name'] != want:
+                    out.append(V(PROP, 'nickname_roundtrip', m, oid, 'after connect() the object holds name %r, the '
+                                 'board\'s nickname is %r' % (a['name'], after['nick'])))
         elif m == 'query_nickname':
             if not faulty and a['err'] is None:
                 want = before['nick'].strip()
@@ -252,7 +262,9 @@ def observe(scn, hist, st):
 
 # ---------------------------------------------------------------------------
 
-NICKS = ['Bob', ' Bob ', 'axi 7', '\tNextDraw_01\r\n', 'x', 'abcdefghijklmnop', '  A', 'Zed9  ', '', '   ']
+NICKS = ['Bob', ' Bob ', 'axi 7', '\tNextDraw_01\r\n', 'x', 'abcdefghijklmnop', '  A', 'Zed9  ', '', '   ',
+         'BOB', 'bob', '  abcdefghijklmnop', 'abcdefghijklmnop  ', '   ABCDEFGHIJKLMNO ', 'Studio  East', 'Old', 'OLD',
+         'prior name', 'Tango 2', 'Quill', 'T', 'Q,1', 'QT', 'Emma', 'a \t b']
 
 
 def world_for(rng, prior_motor=None, ram=None):
@@ -302,8 +314,15 @@ def gen(rng, idx):
     slots_hot = sorted(set(min(28, base + d) for d in (0, 1, 2, 3, 4)))
     n = rng.randint(5, 40)
     for _ in range(n):
-        if rng.random() < 0.03:
-            ops += [call(0, 'disconnect'), {'op': 'env', 'what': 'replug', 'port': port}, call(0, 'connect')]
+        if rng.random() < 0.04:
+            ops.append(call(0, 'disconnect'))
+            x = rng.random()
+            if x < 0.5:
+                ops.append({'op': 'env', 'what': 'replug', 'port': port})
+            if x > 0.3:
+                # somebody else renames the board (or it is a differently named board) while we are away
+                ops.append({'op': 'env', 'what': 'set', 'port': port, 'state': {'nick': rng.choice(NICKS).strip()}})
+            ops.append(call(0, 'connect'))
             continue
         ops.append(gen_op(rng, slots_hot))
     mk_ops(ops)
@@ -379,6 +398,20 @@ def sweep_expand(cell):
                     ops.append(call(0, 'var_read_int32', [x + 2]))
             yield {'prop': PROP, 'world': world, 'ops': mk_ops(ops), 'faults': {}}
     else:
+        for first, second in (('Bob', 'BOB'), ('Bob', 'bob '), ('abc', 'Abc'), ('Bob', ''), ('Bob', '  '), ('', 'Bob'),
+                              ('Bob', 'Robert'), ('Tango 2', 'Quill')):
+            world = world_for(rng)
+            port = world['boards'][0]['port']
+            world['boards'][0]['nick'] = first
+            ops = mk_ops([{'op': 'new', 'obj': 0}, call(0, 'connect'), call(0, 'query_nickname'),
+                          call(0, 'write_nickname', [second]), call(0, 'query_nickname'),
+                          call(0, 'write_nickname', [first]), call(0, 'query_nickname'), call(0, 'disconnect'),
+                          {'op': 'env', 'what': 'set', 'port': port, 'state': {'nick': second.strip()}},
+                          call(0, 'connect'), call(0, 'query_nickname'), call(0, 'disconnect'),
+                          {'op': 'env', 'what': 'replug', 'port': port},
+                          {'op': 'env', 'what': 'set', 'port': port, 'state': {'nick': 'Zed'}},
+                          call(0, 'connect'), call(0, 'query_nickname')])
+            yield {'prop': PROP, 'world': world, 'ops': ops, 'faults': {}}
         for nick in NICKS:
             world = world_for(rng)
             ops = mk_ops([{'op': 'new', 'obj': 0}, call(0, 'connect'), call(0, 'write_nickname', [nick]),
